@@ -114,7 +114,7 @@ def systematic(tier: str):
     reps = 40 if tier == 'quick' else 400
     for n in range(3):
         for seq in (0, 2):            # flag(1, 3): raw 2 -> sequential
-            for pol in (0, 2, 5):     # weighted [2, 3, 2] -> fifo, random, pct
+            for pol in (0, 2, 5, 7):  # weighted [2, 3, 2, 1] -> fifo, random, pct, lifo
                 for _ in range(reps):
                     yield {'n': [n], 'sequential': [seq], 'sched.policy': [pol]}
 
